@@ -159,6 +159,18 @@ class C13(Property):
         for k in (1, 2, 3):
             for combo in itertools.product(near, repeat=k):
                 cases.append(Case("cpops " + " ".join(combo + (PROBE_TOKS,)), tags=("exhaustive-near-equal-values",)))
+        # points built as struct literals (public fields): volumes / velocities the constructors would have clamped; "merely repeats" compares
+        # the STORED values (seed C13-p: is_redundant on the clamped volume)
+        raw = [f"RS:{bits(t)}:{b}:{v}:0" for t in (0.0, 1.0, 2.0) for (b, v) in ((2, 100), (2, 150), (2, 101), (2, 0), (2, -20), (1, 100), (1, 2147483647))]
+        raw += [f"S:{bits(t)}:2:{v}:0" for t in (0.0, 1.0) for v in (100, 0)]
+        for k in (1, 2, 3):
+            for combo in itertools.product(raw, repeat=k):
+                cases.append(Case("cpops " + " ".join(combo + (PROBE_TOKS,)), tags=("exhaustive-raw-sample-points",)))
+        rawd = [f"RD:{bits(t)}:{bits(v)}:{g}" for t in (0.0, 1.0, 2.0) for (v, g) in ((1.0, 1), (10.0, 1), (20.0, 1), (10.000000000000002, 1), (0.1, 1), (0.05, 1), (0.0, 0), (-3.0, 1))]
+        rawd += [f"D:{bits(t)}:{bits(v)}:1" for t in (0.0, 1.0) for v in (10.0, 0.1)]
+        for k in (1, 2, 3):
+            for combo in itertools.product(rawd, repeat=k):
+                cases.append(Case("cpops " + " ".join(combo + (PROBE_TOKS,)), tags=("exhaustive-raw-difficulty-points",)))
         # F8 witnesses and neighbours
         for a, b in [(PZERO, NZERO), (NZERO, PZERO), (PZERO, PZERO), (NZERO, NZERO)]:
             for kind in "TDES":
@@ -205,6 +217,10 @@ class C13(Property):
                     toks.append(f"E:{t}:{rng.choice('01')}:{bits(sc)}")
                 elif r < 0.85:
                     toks.append(f"S:{t}:{rng.choice([0, 1, 1, 2, 3])}:{rng.choice([100, 100, 50, 0, -5, 101, 150, 2147483647, -2147483648])}:{rng.choice([0, 0, 1, 2, -1])}")
+                elif r < 0.9:
+                    toks.append(f"RS:{t}:{rng.choice([0, 1, 2, 3])}:{rng.choice([100, 150, 101, 0, -5, -20, 50, 2147483647, -2147483648])}:{rng.choice([0, 0, 1, 2])}")
+                elif r < 0.93:
+                    toks.append(f"RD:{t}:{bits(rng.choice([1.0, 10.0, 20.0, 0.05, 0.1, 0.0, -1.0, 1e300]))}:{rng.choice('110')}")
                 else:
                     toks.append("?" + rng.choice(pool + [bits(rng.uniform(-60, 60))]))
             for t in rng.sample(pool, min(len(pool), 4)):
